@@ -22,6 +22,20 @@ CHECKS = {
    design_ref="DESIGN.md section 3 C03",
    note="Histories without cancellation/panics/crashes (the property's own quantifier). Starts aborted by the engine itself (JoinSet::abort_all) are counted, must be justified, but are not 'runs twice'. Same trusted base as C01.",
    engine="E1 sequential interpreter"),
+ "C07": dict(
+   technique="property-based testing: generated histories with Restart steps on DbBacked<MockKv>; from-scratch oracle + justified-execution oracle carried across the restart",
+   category="exploration",
+   text="C01 histories with clean restarts (drop every handle, wait until the Arc<Engine> is gone, reopen on the same MockKv store with the same hasher seed and freshly registered executors) inserted at generated positions; cache capacity 1..64, 1..3 serializer workers, commit placement (free-running / drained per step / only at generated Release steps) and physical grouping from the case. After a restart no input is re-set; every value must equal the from-scratch value, and every executor invocation after the restart must be justified by the read sets remembered from before the restart (so results that were up to date are served without running anything, external inputs included).",
+   design_ref="DESIGN.md section 3 C07",
+   note="MockKv stands in for the real backends (same KvDatabase trait; it is validated by the C11 model). Real-backend restarts are part of the thorough tier only when the vbackends binary is built. KF1 excluded by construction.",
+   engine="E1 sequential interpreter"),
+ "C08": dict(
+   technique="fault enumeration inside a property-based search: for every generated history EVERY prefix of MockKv's physical commit log is re-materialised and a new engine is opened on it; oracle = some-earlier-session rule + from-scratch interpreter",
+   category="fault_enumeration",
+   text="For each generated history on DbBacked<MockKv> the ordered log of physical commits is recorded; every prefix (exhaustive per history, all groupings of logical into physical batches that the generated policy produces) is turned into a store, an engine is opened on it, all inputs are read (they must equal the inputs of one committed session, all from the same session; external inputs either still frozen as of that session or re-read from the current world), every node is queried (must equal the from-scratch value for that session, recomputation allowed), and the recovered engine must then accept an edit, queries and a clean restart with correct answers.",
+   design_ref="DESIGN.md section 3 C08",
+   note="Fault model is the property's own (atomic physical commits, prefix durability). SIGKILL of real backends is not part of the quick tier. KF1 excluded by construction (transitive firewalls of stored nodes are repaired through the public API before querying).",
+   engine="E1 + E3 crash images"),
 }
 
 NOT_YET = {
